@@ -2,7 +2,7 @@
 From Coq Require Import List Arith Bool ZArith.
 From Coq Require Import Init.Byte.
 From Nitro Require Import Base.Bytes Base.Res Opt.Token Opt.Decl Opt.ParserModel Opt.ParserCore Opt.ParserSpec Opt.Vocab Opt.Run
-  Opt.RefineDefs Opt.Corollaries Opt.CoreEq Opt.History Opt.Positional Opt.Lexical Opt.Refine5 Opt.Sample.
+  Opt.RefineDefs Opt.Getlines Opt.Corollaries Opt.CoreEq Opt.History Opt.Positional Opt.Lexical Opt.Refine5 Opt.Sample.
 Import ListNotations.
 
 (* The result of a successful parse reports, for every declared option / multi-option / toggle, the value of its SOURCE,
@@ -52,6 +52,18 @@ Theorem C03_toggle_rank : forall e t occ neg,
        else FromDefault (t_def t).
 Proof. exact (toggle_rank truthy falsy). Qed.
 Print Assumptions C03_toggle_rank.
+
+(* "for multi-options: split at `;`": the getline loop is the structural split at ';' with one empty last piece dropped
+   ("a;b;" = "a;b", "" = no element); the pieces glue back to the value and none contains ';' *)
+Theorem C03_multi_env_split : forall sep s, getlines sep s [] false = drop_last_empty (split1 sep s).
+Proof. exact getlines_spec. Qed.
+Print Assumptions C03_multi_env_split.
+Theorem C03_split_lossless : forall sep s, intercalate [sep] (split1 sep s) = s.
+Proof. exact split1_intercalate. Qed.
+Print Assumptions C03_split_lossless.
+Theorem C03_split_pieces_clean : forall sep s, Forall (fun p => ~ In sep p) (split1 sep s).
+Proof. exact split1_clean. Qed.
+Print Assumptions C03_split_pieces_clean.
 
 (* parsing fails for a required option without any source (and only then, as far as sources go) *)
 Theorem C03_required_missing_fails : forall d e items tail,
